@@ -7,8 +7,8 @@ order) and evaluates the property on the observations (reference bookkeeping wit
 what must be reported next per receiver, which future must have which state). -/
 namespace SockModel.Drive.C09
 open SockModel SockModel.Drive SockModel.Udp
-open SockModel.AsyncQ (Bytes Fut)
-open SockModel.Drive.C02 (content fnv takeObs sameSet letter parseRet)
+open SockModel.AsyncQ (Bytes Fut fnv sameSet letter)
+open SockModel.Drive.C02 (content takeObs parseRet)
 
 structure SockInfo where
   i : Nat
